@@ -32,7 +32,7 @@ def bounds(tier):
     return {"lower_bound": (f"k<=4, sums 0..5, remaining total 0..8" if q else "k<=4: sums 0..7, remaining 0..14; k=5: sums 0..7, remaining 0..10; k=6: sums 0..4, remaining 0..10")
                            + "; plus vectors near 2**32 (k=2..3" + ("" if q else "..4") + "); three containers, flag on/off, all permutations for k<=3; five objectives",
             "generate_tree": f"values 0..3, 1..{5 if q else 7} items" + ("" if q else "; values {0,1,2,5,9}, 1..6 items") + ", all half-integer windows from -0.5 to total+0.5",
-            "all_combinations": f"k<=3 with bin contents in {{(),(1),(2),(1,1)}}, k=4 with {{(),(1),(2)}}" + (", k=5 with {(),(1),(2)} (first array sorted)" if q else ", k=5 with {(),(1),(2)}, k=6 with {(),(1)}") + "; both managers"}
+            "all_combinations": f"k<=3 with bin contents in {{(),(1),(2),(1,1)}}, k=4 with {{(),(1),(2)}}" + (", k=5 with {(),(1),(2)} (first array sorted)" if q else ", k=5 with {(),(1),(2)}, k=6 with {(),(1)}") + "; both managers; the contents manager with distinct named items (exactly once) and with plain repeated values (completeness)"}
 
 
 def tasks(tier):
@@ -202,6 +202,25 @@ def _check_comb(acc, k, first, nopt):
             for y in ys:
                 if [float(s) for s in y[0]] != [float(sum(d[x] for x in b)) for b in y[1]]:
                     acc.violation("all_combinations", "contents", inp, "sums_do_not_match_contents", "sums of the yielded lists", [list(map(float, y[0])), y[1]], case); break
+        # contents manager, items given as plain values: equal items are equal objects, so two different pairings can consist of
+        # the same *set* of bins with other multiplicities (five bins: A+C == B+B).  Under value equality "exactly once" is not
+        # well defined (the 1 of the first array and the 1 of the second are the same object), so only completeness and "nothing
+        # else" are judged here: every distinct pairing, as a multiset of value-multisets, is yielded at least once.
+        bp = repo.prtpy.BinnerKeepingContents(lambda x: x)
+        p1 = bp.new_bins(k); p2 = bp.new_bins(k)
+        for arr, choice in ((p1, first), (p2, second)):
+            for i, c in enumerate(choice):
+                for v in OPTS[c]:
+                    bp.add_item_to_bin(arr, v, i)
+        wantp = set(tuple(sorted(tuple(sorted(p1[1][perm[i]] + p2[1][i])) for i in range(k))) for perm in permutations(range(k)))
+        acc.ran("all_combinations.contents-plain")
+        try:
+            gotp = set(tuple(sorted(tuple(sorted(b)) for b in y[1])) for y in bp.all_combinations(p1, p2))
+        except Exception as e:
+            acc.violation("all_combinations", "contents;plain-values", inp, "raises", "pairings", f"{type(e).__name__}: {e}", dict(case, plain=True)); gotp = None
+        if gotp is not None and gotp != wantp:
+            acc.violation("all_combinations", "contents;plain-values", inp, "incomplete_enumeration",
+                          f"{len(wantp)} distinct pairings", f"missing={list(wantp - gotp)[:2]}, extra={list(gotp - wantp)[:2]}", dict(case, plain=True))
         # sums manager
         bs = repo.prtpy.BinnerKeepingSums(lambda x: d[x])
         s1 = np.array(b1[0]); s2 = np.array(b2[0])
